@@ -96,6 +96,7 @@ def gen_schema(r, size=1.0):
             order = list(range(len(t["fields"]))); r.shuffle(order)
             t["order"] = order
     S["root"] = S["tables"][0]["name"]
+    S["unions_last"] = bool(S["unions"]) and r.random() < 0.3
     return S
 
 
@@ -110,12 +111,14 @@ def render(S):
             t = f["type"]
             fs.append("%s:%s;" % (f["name"], "[%s:%d]" % (t, f["len"]) if "len" in f else t))
         out.append("struct %s%s { %s }" % (s["name"], " (force_align: %d)" % s["force_align"] if s["force_align"] else "", " ".join(fs)))
-    # tables and unions reference each other: flatcc resolves later definitions
+    # tables and unions reference each other: flatcc resolves later definitions; a union may be declared before or after the tables using it
+    utext = []
     for u in S["unions"]:
         ms = []
         for kind, nm in u["members"]:
             ms.append("%s:string" % nm if kind == "str" else nm)
-        out.append("union %s { %s }" % (u["name"], ", ".join(ms)))
+        utext.append("union %s { %s }" % (u["name"], ", ".join(ms)))
+    if not S.get("unions_last"): out += utext
     for t in S["tables"]:
         fs = []
         for f in ([t["fields"][i] for i in t["order"]] if t.get("order") else t["fields"]):
@@ -129,5 +132,6 @@ def render(S):
             d = " = %s" % f["default"] if "default" in f else ""
             fs.append("%s:%s%s%s;" % (f["name"], ty, d, " (%s)" % ", ".join(attrs) if attrs else ""))
         out.append("table %s { %s }" % (t["name"], " ".join(fs)))
+    if S.get("unions_last"): out += utext
     out.append("root_type %s;" % S["root"])
     return "\n".join(out) + "\n"
